@@ -17,6 +17,10 @@ type concQuery struct {
 	Doc     int    `json:"doc"` // index into Docs; queries with the same index SHARE the Go object
 	SQL     string `json:"sql"`
 	Wrapped bool   `json:"wrapped"`
+	// the result of this query when it is the only thing a fresh process ever ran (op "alone"); when present it
+	// replaces the in-process baseline, which shares the process-wide selector cache with everything run before it
+	ExpectV *string `json:"expectV"`
+	ExpectR string  `json:"expectR"`
 }
 
 type concReq struct {
@@ -52,6 +56,27 @@ func runOne(doc map[string]any, q concQuery) (string, string) {
 	return strings.Join(rows, "\n"), "ok"
 }
 
+// opAlone: one query on one document, in a process that runs nothing else
+func opAlone(raw json.RawMessage) resp {
+	var a struct {
+		Doc json.RawMessage `json:"doc"`
+		Q   concQuery       `json:"q"`
+	}
+	if err := json.Unmarshal(raw, &a); err != nil {
+		return resp{"bad": err.Error()}
+	}
+	v, err := decodeVal(a.Doc)
+	if err != nil {
+		return resp{"bad": err.Error()}
+	}
+	m, ok := v.(map[string]any)
+	if !ok {
+		return resp{"bad": "doc must be an object"}
+	}
+	val, rr := runOne(m, a.Q)
+	return resp{"r": "ok", "v": val, "rr": rr}
+}
+
 func opConc(raw json.RawMessage) resp {
 	out := resp{}
 	var r concReq
@@ -79,6 +104,18 @@ func opConc(raw json.RawMessage) resp {
 	for i, q := range r.Queries {
 		v, rr := runOne(deepCopy(docs[q.Doc]).(map[string]any), q)
 		expect[i] = exp{v, rr}
+		if q.ExpectV != nil {
+			expect[i] = exp{*q.ExpectV, q.ExpectR}
+			if v != *q.ExpectV || rr != q.ExpectR {
+				out["r"] = "ok"
+				out["mismatches"] = 1
+				out["maxConcurrent"] = 0
+				out["executions"] = i + 1
+				out["first"] = map[string]any{"sql": q.SQL, "doc": q.Doc, "alone": *q.ExpectV, "aloneR": q.ExpectR,
+					"afterEarlierQueriesInTheSameProcess": v, "afterR": rr}
+				return out
+			}
+		}
 	}
 	selExpect := make([]string, len(r.Selectors))
 	for i, s := range r.Selectors {
